@@ -12,13 +12,17 @@ RULE = (
     "Aliquot chains of length 1..4 with an independently drawn documented spelling per component (symbols, /2 /4, bare 2 4, "
     "1/2 1/4 with and without spaces, direction words with Half / Quarter / One Half / One Quarter / 1/2 / 1/4, dotted "
     "abbreviations, upper/lower/title case) and joiner per gap (nothing after a digit or glyph, space, double space, "
-    "' of ', ' of the ', ' of<newline>', newline) x clean_qq x depth settings; plus the exhaustive table of bare two-letter "
-    "quarters in the contexts {alone, after a spelled half, after a symbol half, after 'of the', after a comma}. Oracle = canonical "
+    "' of ', ' of the ', ' of<newline>', newline) x clean_qq x depth settings, a bare two-letter quarter being used anywhere under "
+    "clean_qq and directly after a half under every configuration (chain continuing or not); plus the exhaustive table of bare two-letter "
+    "quarters in the contexts {alone, after a spelled half, after a symbol half, after 'of the', after a comma}; and spelled chains "
+    "written in front of lots ('... of Lot 1', '... of Lots 1 - 3', ', Lot 4', ...) whose lots, lot divisions, acreages and aliquots must "
+    "equal those of the canonical spelling. Oracle = canonical "
     "text built by the harness and the library's result on that canonical text. Non-trivial: >= 2 components using at "
     "least two different spelling families. Distinct = distinct rendered text x configuration."
 )
 ASSUMPTIONS = [
     "A component spelling is joined to the next without a space only after 2, 4, ½ or ¼ (DESIGN 6.5).",
+    "Without clean_qq a bare quarter is generated only directly after a half that starts the chain or is separated from the component before it (the half is recognised at a word boundary; 'SW¼N½ SW' is outside the statement, which only says when a bare quarter may be read as an aliquot).",
 ]
 
 CONFIGS = ["", "clean_qq", "qq_depth_min.1", "qq_depth.1", "qq_depth_max.2", "break_halves", "qq_depth_min.3",
@@ -32,19 +36,26 @@ def case():
     plain = st.fixed_dictionaries({"sc": aq.spelled_chain_strategy(1, 4), "config": st.sampled_from(CONFIGS)})
     # bare two-letter quarters anywhere in a chain are documented spellings under clean_qq
     bare = st.fixed_dictionaries({"sc": aq.spelled_chain_strategy(1, 4, bare=True), "config": st.sampled_from(CLEAN_CONFIGS)})
-    return st.one_of(plain, plain, bare)
+    # ... and directly after a half under every configuration
+    after_half = st.fixed_dictionaries({"sc": aq.spelled_chain_strategy(2, 4, bare_after_half=True), "config": st.sampled_from(CONFIGS)})
+    return st.one_of(plain, plain, bare, after_half)
 
 
 def validate(c):
     sc = c["sc"]
     if not sc["chain"] or len(sc["chain"]) != len(sc["spell"]) or len(sc["joiners"]) != len(sc["chain"]) - 1:
         return False
-    for comp, (fam, text) in zip(sc["chain"], sc["spell"]):
-        if comp not in aq.COMPONENTS or text.lower() not in {t.lower() for _, t in aq.spellings(comp, bare="clean_qq" in c["config"])}:
+    for i, (comp, (fam, text)) in enumerate(zip(sc["chain"], sc["spell"])):
+        may_be_bare = "clean_qq" in c["config"] or (i > 0 and sc["chain"][i - 1] in aq.HALVES)
+        if comp not in aq.COMPONENTS or text.lower() not in {t.lower() for _, t in aq.spellings(comp, bare=may_be_bare)}:
             return False
     for (fam, text), j in zip(sc["spell"], sc["joiners"]):
         if j not in aq.JOINERS or (j == "" and text[-1] not in "24½¼"):
             return False
+    if "clean_qq" not in c["config"]:
+        for i, (fam, text) in enumerate(sc["spell"]):
+            if fam == "bareq" and i >= 2 and sc["joiners"][i - 2] == "":
+                return False
     return True
 
 
@@ -57,6 +68,11 @@ def classes(c):
     out = [f"fam={f}" for f, _ in c["sc"]["spell"]]
     out += [f"join={j!r}" for j in c["sc"]["joiners"]]
     out.append("clean_qq" if "clean_qq" in c["config"] else "no_clean_qq")
+    sp = c["sc"]["spell"]
+    if "clean_qq" not in c["config"] and any(f == "bareq" for f, _ in sp):
+        out.append("bare_quarter_after_half_without_clean_qq")
+        if any(f == "bareq" and i < len(sp) - 1 for i, (f, _) in enumerate(sp)):
+            out.append("chain_continues_after_bare_quarter")
     return sorted(set(out))
 
 
@@ -166,10 +182,62 @@ def oracle_bare(c):
     return fails
 
 
+# aliquots in front of lots: the spelling of the aliquot may not change which lots (and lot divisions) are reported ----------
+
+LOT_TAILS = [" of Lot 1", " of Lots 1 - 3", " of Lot 2(38.5)", " of L4", ", Lot 4", "; Lots 2, 3", " of Lots 1, 2 and 5", " OF LOT 7", " of\nLot 1", " Lot 6"]
+LOT_CONFIGS = ["", "clean_qq", "suppress_lot_divs", "clean_qq,suppress_lot_divs.False", "qq_depth.1", "clean_qq,qq_depth_min.1"]
+
+
+def lots_case():
+    plain = st.fixed_dictionaries({"sc": aq.spelled_chain_strategy(1, 3), "config": st.sampled_from(LOT_CONFIGS), "tail": st.sampled_from(LOT_TAILS)})
+    bare = st.fixed_dictionaries({"sc": aq.spelled_chain_strategy(1, 3, bare=True), "config": st.sampled_from([c for c in LOT_CONFIGS if "clean_qq" in c]),
+                                  "tail": st.sampled_from(LOT_TAILS)})
+    after_half = st.fixed_dictionaries({"sc": aq.spelled_chain_strategy(2, 3, bare_after_half=True), "config": st.sampled_from(LOT_CONFIGS),
+                                        "tail": st.sampled_from(LOT_TAILS)})
+    return st.one_of(plain, bare, after_half)
+
+
+def oracle_lots(c):
+    chain = c["sc"]["chain"]
+    text = aq.render_spelled(c["sc"]) + c["tail"]
+    canon_text = aq.canonical_text(chain) + c["tail"]
+    cfg = c["config"]
+    t = Tract(text, parse_qq=True, config=cfg)
+    ref = Tract(canon_text, parse_qq=True, config=cfg)
+    fails = []
+    ctx = dict(text=text, canonical=canon_text, config=cfg)
+    for k in ("lots", "qqs", "lots_qqs"):
+        a, b = list(getattr(t, k)), list(getattr(ref, k))
+        if a != b:
+            fails.append(Failure(f"with_lots:{k}", f"{text!r} gives {k}={a} but {canon_text!r} gives {b} [{cfg}]", **ctx))
+            break
+    if dict(t.lot_acres) != dict(ref.lot_acres):
+        fails.append(Failure("with_lots:lot_acres", f"{text!r} gives lot_acres={t.lot_acres} but {canon_text!r} gives {ref.lot_acres} [{cfg}]", **ctx))
+    again = Tract(t.pp_desc, parse_qq=True, config=cfg)
+    if (again.pp_desc, list(again.lots), list(again.qqs)) != (t.pp_desc, list(t.lots), list(t.qqs)):
+        fails.append(Failure("with_lots:fixed_point", f"parsing normalised {t.pp_desc!r} again gives {again.pp_desc!r} {again.lots} {again.qqs} vs {t.lots} {t.qqs}", **ctx))
+    _last_lots["div"] = any(" of L" in x for x in ref.lots)
+    return fails
+
+
+_last_lots = {}
+
+
+def lots_classes(c):
+    out = classes(c)
+    out.append(f"tail={c['tail']!r}")
+    if _last_lots.get("div"):
+        out.append("lot_division_reported")
+    return out
+
+
 SUBS = [
     Sub("spellings", oracle, strategy=lambda tier: case(), validate=validate, nontrivial=nontrivial, classes=classes, render=render,
         n={"quick": 2500, "thorough": 30000}, shards={"quick": 8, "thorough": 16},
-        essential=("fam=word", "fam=bare", "fam=slash_sp", "fam=dot", "fam=bareq", "join=''", "join=' of the '", "join=' OF THE '", "join='\\n'", "clean_qq")),
+        essential=("bare_quarter_after_half_without_clean_qq", "chain_continues_after_bare_quarter", "fam=word", "fam=bare", "fam=slash_sp", "fam=dot", "fam=bareq", "join=''", "join=' of the '", "join=' OF THE '", "join='\\n'", "clean_qq")),
+    Sub("with_lots", oracle_lots, strategy=lambda tier: lots_case(), validate=validate, nontrivial=lambda c: bool(_last_lots.get("div")), classes=lots_classes,
+        render=lambda c: {"text": aq.render_spelled(c["sc"]) + c["tail"], "config": c["config"]},
+        n={"quick": 600, "thorough": 8000}, shards={"quick": 4, "thorough": 16}, essential=("lot_division_reported", "fam=bareq", "clean_qq")),
     Sub("bare_quarters", oracle_bare, enumerate=enum_bare, exhaustive=True, shards={"quick": 2, "thorough": 2},
         classes=lambda c: [c["ctx"], "clean" if c["clean_qq"] else "noclean"], render=lambda c: c),
 ]
